@@ -868,7 +868,8 @@ def check_condition_scope(ctx, fn, rule):
         j = members[0]
         for m in members[1:]:
             j = Obj('Join', left=j, right=m, condition=None, join_type='join', implicit=False, alias=None)
-        planner = Obj('QueryPlanner', default_namespace='mindsdb', databases=['int1', 'int2', 'int3', 'mindsdb'])
+        from .C10 import real_planner
+        planner = real_planner(_CTX['ctx'], ['int1', 'int2', 'int3'], [], default_namespace='mindsdb')
         self_ = new_pjt(planner=planner, tables_idx={}, tables=[])
         stubs = base_stubs()
         stubs['self.planner.get_predictor'] = lambda it, n_: None
